@@ -2,7 +2,7 @@
 # seedrun.sh <property> <patch.diff> [tier] : applies a seeded change to /repo, runs the check, reverts.
 P=$1; PATCH=$2; TIER=${3:-quick}
 cd /repo && git status --short | grep -q . && { echo "repo dirty"; exit 2; }
-git apply "$PATCH" 2>/dev/null || git apply --3way "$PATCH" 2>/dev/null || patch -p1 -s --no-backup-if-mismatch < "$PATCH" || { echo "PATCH DOES NOT APPLY"; git reset -q; git checkout -q -- .; exit 3; }
+git apply "$PATCH" 2>/dev/null || git apply --3way "$PATCH" 2>/dev/null || patch -p1 -s --no-backup-if-mismatch < "$PATCH" || { echo "PATCH DOES NOT APPLY"; git reset -q; git checkout -q -- .; git clean -fdq; exit 3; }
 # the evidence file of a seeded run must not replace the record of the unchanged tree
 mkdir -p /verif/.work && cp /verif/evidence/$P.json /verif/.work/evidence.$P.keep 2>/dev/null
 cd /verif && timeout 1500 ./check $P --tier $TIER | tail -6
